@@ -366,7 +366,13 @@ func (f *File) seekWithoutLocking(offset int64, whence int) (int64, error) {
 		return -1, err
 	}
 
-	// Seeking beyond the end of the file is allowed; report the new offset, not the distance skipped
+	// Seeking beyond the end of the file is allowed: the stream has ended, but the offset is where the caller
+	// asked to be, so that relative seeks and a later write continue from there
+	if int64(f.readOpReader.BytesRead) < dst {
+		f.readOpReader.BytesRead = int(dst)
+	}
+
+	// Report the new offset, not the distance skipped
 	return dst, nil
 }
 
